@@ -159,7 +159,9 @@ def check(case, ctx):
         if o[0] == "rec":
             o = list(o)
             o[5] = list(o[5]) + [[{"ns": c07.NSS[0][1], "local": "note", "prefix": "ex", "as": "qn"}, {"k": "str", "v": case.get("nonascii", "é")}]]
-            if o[3] is None and o[2] in c07.SIMPLE_ANON:
+            if o[3] is None:
+                # an anonymous relation must stay as the post-pass left it: an extra attribute would turn a plain
+                # relation into a qualified one behind the back of the exclusions (F-C07-1) and of the quantifier
                 continue
             ops[i] = o
             break
